@@ -131,7 +131,7 @@ pub struct CommandTask {
 //!end
 
 impl CommandTask {
-//!fn src/app/run.rs CommandTask::run rules=R1,R7,R12 props=C20,C08,C06
+//!fn src/app/run.rs CommandTask::run rules=R1,R7,R12 props=C20,C08,C06,C15
     async fn run(
         &mut self,
         child__0: tokio_process::Child,
